@@ -39,12 +39,22 @@ class Sandbox:
         elif os.path.lexists(p):
             os.unlink(p)
 
-    def write(self, rel, text):
-        """create or replace a regular file (a directory of that name is removed first)"""
+    def write(self, rel, text, keep_mtime=False):
+        """create or replace a regular file (a directory of that name is removed first). keep_mtime: the file is
+        REPLACED (new inode, new ctime, possibly another size) but keeps the modification time of the old one
+        (`cp -p`, `rsync -t`, a restore) — still a change that version_for_file_path sees"""
         p = self.abspath(rel)
         if os.path.isdir(p):
             shutil.rmtree(p)
         os.makedirs(os.path.dirname(p), exist_ok=True)
+        if keep_mtime and os.path.isfile(p):
+            st = os.stat(p)
+            tmp = p + ".replacement"
+            with open(tmp, "w", encoding="utf-8", newline="") as f:
+                f.write(text)
+            os.replace(tmp, p)
+            os.utime(p, ns=(st.st_atime_ns, st.st_mtime_ns))
+            return
         with open(p, "w", encoding="utf-8", newline="") as f:
             f.write(text)
         self._stamp(p)
